@@ -283,6 +283,13 @@ pub fn judge_line(
                     model.commit(&pred, n, k, id, &f.payload, Seen::Rejected);
                 }
                 Pred::Unspecified(_) => {
+                    // a sentence with fragment number 1 (or 0) continues nothing, whatever its count says:
+                    // if it is accepted, the payload it reports is its own, unmodified (C07)
+                    if clauses & FIELDS != 0 && k <= 1 {
+                        if let Some(s) = out.sent() {
+                            res = cmp_fields(&f, s, &f.payload);
+                        }
+                    }
                     model.commit(&pred, n, k, id, &f.payload, seen_of(out));
                     if line.decode && out.is_err() {
                         // with decoding on, an error may also mean "accepted as the final fragment,
